@@ -21,18 +21,18 @@ func checkC04(c *Ctx) {
 	c.runPagedImplMC()
 	// exhaustive tree, small alphabet
 	c.runStoreGen(&StoreGen{Kinds: exact2, Keys: []int{0, 2, 4}, Q: 4, Weights: []int{0, 6}, Factors: [][2]int{{3, 2}, {1, 2}},
-		Repeats: []int{33}, Ops: opsC04, Depth: c.pick(3, 4)}, c.pick(6, 12), "exhaustive tree")
+		Repeats: []int{33}, Ops: opsC04, Depth: 3}, c.pick(6, 16), "exhaustive tree")
 	// deep narrow trees: every sequence of 5 (thorough: 6) events over focused alphabets - multi-step memory-reuse paths
 	c.runStoreGen(&StoreGen{Kinds: exact2, Keys: []int{0, 3}, Q: 4, Weights: []int{6}, Ops: []string{"Add", "AddWithCount", "Merge", "Clear"},
-		Depth: c.pick(4, 6)}, c.pick(3, 3), "deep narrow tree add/addWithCount/merge/clear")
+		Depth: c.pick(4, 5)}, c.pick(3, 4), "deep narrow tree add/addWithCount/merge/clear")
 	c.runStoreGen(&StoreGen{Kinds: exact2, Keys: []int{0, 3}, Q: 4, Weights: []int{6}, Ops: []string{"Add", "Merge", "Clear"},
-		Depth: c.pick(5, 7)}, c.pick(3, 3), "deep narrow tree add/merge/clear")
+		Depth: c.pick(5, 6)}, c.pick(3, 4), "deep narrow tree add/merge/clear")
 	c.runStoreGen(&StoreGen{Kinds: exact2, Keys: []int{1, 2}, Q: 4, Weights: []int{6}, Repeats: []int{33}, Factors: [][2]int{{1, 2}},
 		Ops: []string{"Add", "AddRepeat", "EncDec", "Reweight", "CopyTo"}, Depth: c.pick(4, 5)}, c.pick(3, 3), "deep narrow tree add/addRepeat/encDec/reweight/copy")
 	// single store, reads as explicit events: stale caches of internal state (sortedness, compaction) across Clear/Reweight
 	// only show when NO other read happens in between - the "final" replay mode projects the store only at the end
 	c.runStoreGen(&StoreGen{Kinds: exact2[:1], Keys: []int{1, 3}, Q: 4, Weights: []int{6}, Factors: [][2]int{{1, 2}},
-		Ops: []string{"Add", "Read", "Clear", "Reweight"}, Depth: c.pick(7, 9)}, c.pick(4, 6), "deep narrow tree, one store: add/read/clear/reweight")
+		Ops: []string{"Add", "Read", "Clear", "Reweight"}, Depth: c.pick(7, 8)}, c.pick(4, 6), "deep narrow tree, one store: add/read/clear/reweight")
 	// long random histories, full alphabet
 	c.runStoreGen(&StoreGen{Kinds: exact2, Keys: []int{0, 1, 2, 3, 4}, Q: 4, Weights: []int{0, 1, 2, 4, 8, 12},
 		Factors: [][2]int{{1, 4}, {1, 2}, {2, 1}, {3, 1}}, Repeats: []int{33, 70}, Ops: opsC04, Depth: c.pick(16, 24),
